@@ -326,3 +326,13 @@ def c13(r):
     r.exhaustive = True
     r.extra['bounds'] = 'all sequences of <= 3 lexemes from 47 lexeme classes x every single split + sizes 1,2,3,5; 5 seed programs x pads 985..1030 x LF/CRLF x fragment sizes 1,2,7,64,1000'
     r.conform(scs, workers=16)
+
+
+@prop('C19')
+def c19(r):
+    r.assumptions += ['the interactive mode output is compared after removing the banner, prompts, Elapsed lines and error reports (counted)',
+                      'argument vectors in judged scenarios are ASCII; exit status 1 is the failure status']
+    scs = r.gen('Gen_C19', 'Gen_C19.cfg', timeout=3000)
+    r.exhaustive = True
+    r.extra['bounds'] = '17 programs (10 return shapes, 5 failures, function/handler) x 4 argument vectors x {file, -, --out}; 8 invalid texts x 3 modes; 3 interactive sessions x 2 argument vectors; 24 expressions + 4 invalid for -e'
+    r.conform(scs, workers=8, tmo=60)
